@@ -1,0 +1,65 @@
+//go:build verif
+
+package bytecode
+
+// Contracts for the deductive verifier in /verif (build tag "verif" only; this
+// file contains no declarations and is not part of any normal build).
+//
+//@ mode bv
+//@ implicit [C05]
+//
+//@ pred fieldmask(sel int) uint64 := ite(sel == 0, uint64(0x0007_0000_0000_ffff), ite(sel == 1, uint64(0x0038_0000_ffff_0000), uint64(0x01c0_ffff_0000_0000)))
+//@ pred opmask() uint64 := 0xfe00_0000_0000_0000
+//@ pred imm16(a int) bool := -32768 <= a && a <= 32767
+//@ pred kindOf(b Type, sel int) uint64 := ite(sel == 0, b.Src0(), ite(sel == 1, b.Src1(), b.Src2()))
+//@ pred addrOf(b Type, sel int) int := ite(sel == 0, b.Src0Addr(), ite(sel == 1, b.Src1Addr(), b.Src2Addr()))
+//
+//@ func New [C15]
+//@   pure
+//@   ensures[opcode] result.OpCode() == op & 0x7f
+//@   ensures[clean]  uint64(result) & ^opmask() == 0
+//
+// EncodeSrc refuses (by panic) what it cannot represent; whatever it accepts must decode to itself.
+// No range precondition is assumed when the body is verified: the acceptance test is the code's,
+// the postcondition is the property's.
+//@ func EncodeSrc [C15]
+//@   pure
+//@   maypanic
+//@   requires[sel]  0 <= srcsel && srcsel <= 2
+//@   requires[kind] src <= 7
+//@   callers[range;C15,C05] imm16(srcAddr)
+//@   ensures[roundtrip_kind] kindOf(result, srcsel) == src
+//@   ensures[roundtrip_addr] addrOf(result, srcsel) == srcAddr
+//@   ensures[disjoint]       uint64(result) & ^fieldmask(srcsel) == 0
+//
+//@ func convImm [C15]
+//@   pure
+//@   requires uint64(n) <= 0xffff
+//@   ensures[signext] imm16(result) && uint64(result) & 0xffff == uint64(n)
+//
+//@ lemma opcode_roundtrip [C15]
+//@   vars c OpCode
+//@   requires c < 128
+//@   ensures[all_opcodes] New(c).OpCode() == c
+//@   ensures[no_operands] New(c).Src0() == 0 && New(c).Src1() == 0 && New(c).Src2() == 0 && New(c).Src0Addr() == 0 && New(c).Src1Addr() == 0 && New(c).Src2Addr() == 0
+//
+// OR-ing a word whose field `sel` is zero into another word leaves that field's decoding unchanged:
+// this is what makes `New(op) | EncodeSrc(0,..) | EncodeSrc(1,..)` and jump patching by OR lossless.
+//@ lemma or_merge [C15,C12]
+//@   vars x Type, y Type, sel int
+//@   requires 0 <= sel && sel <= 2 && uint64(y) & fieldmask(sel) == 0
+//@   ensures[field_kept] kindOf(x|y, sel) == kindOf(x, sel) && addrOf(x|y, sel) == addrOf(x, sel)
+//
+//@ lemma or_merge_opcode [C15,C12]
+//@   vars x Type, y Type
+//@   requires uint64(y) & opmask() == 0
+//@   ensures[opcode_kept] (x|y).OpCode() == x.OpCode()
+//
+// The field masks partition the word: operand fields and opcode do not overlap.
+//@ lemma fields_disjoint [C15]
+//@   vars dummy int
+//@   ensures fieldmask(0) & fieldmask(1) == 0 && fieldmask(0) & fieldmask(2) == 0 && fieldmask(1) & fieldmask(2) == 0
+//@   ensures (fieldmask(0) | fieldmask(1) | fieldmask(2)) & opmask() == 0
+//
+//@ canary func (Type).Src0
+//@   ensures false
